@@ -104,15 +104,18 @@ func cacheInvariants(c *Ctx, ca *cache.Cache, where string) {
 	s := snapCache(ca)
 	if uint64(s.use) != s.sum() {
 		c.Fail("C09", "use-ne-sum", fmt.Sprintf("%s: CacheUseSize=%d but stored values total %d bytes", where, s.use, s.sum()))
+		c.Fail("C08", "use-ne-sum", fmt.Sprintf("%s: CacheUseSize=%d but stored values total %d bytes", where, s.use, s.sum()))
 	}
 	if ca.CacheSize > 0 && s.sum() > uint64(ca.CacheSize) {
 		c.Fail("C09", "over-capacity", fmt.Sprintf("%s: %d bytes cached, capacity %d", where, s.sum(), ca.CacheSize))
+		c.Fail("C08", "over-capacity", fmt.Sprintf("%s: %d bytes cached, capacity %d", where, s.sum(), ca.CacheSize))
 	}
 	seen := map[string]int{}
 	for i, m := range s.frames {
 		for k, v := range m {
 			if j, ok := seen[k]; ok {
 				c.Fail("C09", "key-in-two-scopes", fmt.Sprintf("%s: key %q in frames %d and %d", where, k, j, i))
+				c.Fail("C08", "key-in-two-scopes", fmt.Sprintf("%s: key %q in frames %d and %d", where, k, j, i))
 			}
 			seen[k] = i
 			lim, ok := s.sizes[k]
@@ -120,6 +123,7 @@ func cacheInvariants(c *Ctx, ca *cache.Cache, where string) {
 				c.Fail("C09", "no-size-for-live-key", fmt.Sprintf("%s: key %q has no size entry", where, k))
 			} else if lim > 0 && len(v) > int(lim) {
 				c.Fail("C09", "stored-over-limit", fmt.Sprintf("%s: key %q holds %d bytes, limit %d", where, k, len(v), lim))
+				c.Fail("C05", "stored-over-limit", fmt.Sprintf("%s: key %q holds %d bytes, limit %d", where, k, len(v), lim))
 			}
 		}
 	}
@@ -221,6 +225,7 @@ func init() {
 						c.Count("add:" + res)
 						if lim > 0 && l > lim && opErr == nil {
 							c.Fail("C09", "limit-not-enforced", fmt.Sprintf("%s: Add of %d bytes under limit %d accepted", where, l, lim))
+							c.Fail("C05", "limit-not-enforced", fmt.Sprintf("%s: Add of %d bytes under limit %d accepted", where, l, lim))
 						}
 					case "u":
 						tag, _ := strconv.Atoi(p[2])
@@ -232,6 +237,7 @@ func init() {
 						c.Count("update:" + res)
 						if have && lim > 0 && l > int(lim) && opErr == nil {
 							c.Fail("C09", "limit-not-enforced", fmt.Sprintf("%s: Update to %d bytes under limit %d accepted", where, l, lim))
+							c.Fail("C05", "limit-not-enforced", fmt.Sprintf("%s: Update to %d bytes under limit %d accepted", where, l, lim))
 						}
 					case "g":
 						v, e := ca.Get(string(unhx(p[1])))
@@ -263,10 +269,12 @@ func init() {
 							}
 							if uint64(before.use)-rel != uint64(ca.CacheUseSize) {
 								c.Fail("C09", "pop-release", fmt.Sprintf("%s: used %d -> %d, popped scope held %d bytes", where, before.use, ca.CacheUseSize, rel))
+								c.Fail("C05", "pop-release", fmt.Sprintf("%s: used %d -> %d, popped scope held %d bytes", where, before.use, ca.CacheUseSize, rel))
 							}
 							for k := range top {
 								if _, e := ca.Get(k); e == nil {
 									c.Fail("C09", "pop-release", fmt.Sprintf("%s: key %q still readable after its scope was left", where, k))
+									c.Fail("C05", "pop-release", fmt.Sprintf("%s: key %q still readable after its scope was left", where, k))
 								}
 							}
 						}
@@ -290,10 +298,12 @@ func init() {
 				}()
 				if panicked && p[0] != "k" {
 					c.Fail("C09", "panic", fmt.Sprintf("%s panicked", where))
+					c.Fail("C08", "panic", fmt.Sprintf("%s panicked", where))
 				}
 				if opErr != nil && (p[0] == "a" || p[0] == "u" || p[0] == "o" || p[0] == "g" || p[0] == "r") {
 					if !before.equal(snapCache(ca)) {
 						c.Fail("C09", "rejected-op-changed-cache", fmt.Sprintf("%s returned %v but the cache changed", where, opErr))
+						c.Fail("C08", "rejected-op-changed-cache", fmt.Sprintf("%s returned %v but the cache changed", where, opErr))
 					}
 				}
 				cacheInvariants(c, ca, where)
